@@ -216,9 +216,7 @@ package cryptoutils
 
 // FE2OS (TR-03111 3.1.3): fixed-length octet string of a field element.
 //@ spec func fieldLen(c ref) int { (curveBits(c) + 7) / 8 }
-// every field element fits the field width
-//@ lemma field_element_width: forall c int, v int :: 0 <= v && v < curveP(c) ==> blen(v) <= fieldLen(c)
-//@   props C04 C06 C14
+// (lemma field_element_width - every field element fits the field width - is stated in /verif/specs/zlemmas.gvc, after the axioms it is proved from)
 //@ func EcFieldElementBytes
 //@   props C04 C06 C14 C12
 //@   requires ec != nil && x != nil
